@@ -1034,4 +1034,52 @@ theorem LabelSuffix.drop_of_le {z q : Name} (h : LabelSuffix z q) (level : Nat) 
   refine ⟨p.drop ((p ++ sfx).length - level), sfx, ?_, e⟩
   rw [List.drop_append_of_le_length (by simp; omega)]
 
+/-! ### `processDelegation` over histories -/
+
+theorem mem_setKey {β : Type} (l : List (Str × β)) (k : Str) (v : β) (p : Str × β)
+    (h : p ∈ setKey l k v) : p ∈ l ∨ p = (k, v) := by
+  unfold setKey at h
+  rcases List.mem_append.mp h with h | h
+  · exact Or.inl (List.mem_filter.mp h).1
+  · exact Or.inr (by simpa using h)
+
+theorem getKey_mem {β : Type} (l : List (Str × β)) (k : Str) (v : β) (h : getKey l k = some v) :
+    ∃ p ∈ l, p.2 = v := by
+  unfold getKey at h
+  cases hf : l.find? (fun p => p.1 == k) with
+  | none => rw [hf] at h; simp at h
+  | some p =>
+    rw [hf] at h
+    simp only [Option.map_some, Option.some.injEq] at h
+    exact ⟨p, List.mem_of_find?_eq_some hf, h⟩
+
+theorem mem_appendUniqueAll (l : List IP) : ∀ (srv : List IP) (a : IP),
+    a ∈ appendUniqueAll srv l → a ∈ srv ∨ a ∈ l := by
+  unfold appendUniqueAll
+  induction l with
+  | nil => intro srv a h; exact Or.inl (by simpa using h)
+  | cons x t ih =>
+    intro srv a h
+    simp only [List.foldl_cons] at h
+    rcases ih _ a h with h' | h'
+    · split at h'
+      · exact Or.inl h'
+      · rcases List.mem_append.mp h' with h'' | h''
+        · exact Or.inl h''
+        · exact Or.inr (by simp at h''; simp [h''])
+    · exact Or.inr (List.mem_cons_of_mem _ h')
+
+theorem mem_glueCached (acc : List (Str × IP)) (h : Str) (a : IP)
+    (ha : a ∈ (glueCached acc h).getD []) : (h, a) ∈ acc := by
+  unfold glueCached at ha
+  simp only at ha
+  split at ha
+  · simp at ha
+  · simp only [Option.getD_some] at ha
+    have := mem_of_mem_dedup a _ ha
+    obtain ⟨p, hp, rfl⟩ := List.mem_map.mp this
+    obtain ⟨hp1, hp2⟩ := List.mem_filter.mp hp
+    have : p.1 = h := by simpa using hp2
+    rw [← this]; exact hp1
+
 end SdnsVerif.Lemmas.Bailiwick
